@@ -258,6 +258,26 @@ def rule_work(facts, col, rid_c19="C19.R2", rid_c08="C08.R1", rid_c12="C12.R2", 
                     sides = [peel(p.a, through_try=False), peel(p.b, through_try=False)]
                     if any(x.k == "call" and x.q == "stream::Tag::pos" for x in sides):
                         okf = True
+            # ... and the predicate is the argument of Iterator::filter applied to the WHOLE tag list of that input
+            # (no skip / take_while / cursor in front: those drop tags the position test never sees)
+            used = False
+            for ubb, ut in clo.calls():
+                direct = False
+                for a_ in ut["args"][1:]:
+                    pa = peel(clo.operand_expr(a_), through_try=False)
+                    if pa is not None and pa.k == "agg" and pa.ak == "closure" and pa.q == fc.path:
+                        direct = True
+                if not direct:
+                    continue
+                used = True
+                if ut["f"].get("name") != "filter":
+                    okf = False
+                recv = clo.operand_expr(ut["args"][0])
+                for x in walk(recv):
+                    if x.k == "call" and (x.q or "").split("::")[-1] not in ("iter", "deref", "as_slice", "into_iter", "as_ref", "borrow"):
+                        okf = False
+            if not used:
+                okf = False
             if not okf:
                 fbad.append(fc.path)
         if len(filters) == len(ins) and not fbad:
